@@ -280,7 +280,7 @@ static void conv_big_case(uint64_t idx, void *vctx)
 }
 
 /* ---------- init_from_image (C07): every a1 bitmap of the shape list ---------- */
-typedef struct { int w, h; int nfree; int freecol[20]; int zero_padding; /* bits beyond the width and the padding word: all ones (0) or all zeros (1); neither are pixels */ } img_ctx;
+typedef struct { int w, h; int nfree; int freecol[20]; int zero_padding; /* bits beyond the width and the padding word: all ones (0), all zeros (1), or a pattern that differs from row to row (2); none of them are pixels */ } img_ctx;
 
 static void img_case(uint64_t idx, void *vctx)
 {
@@ -289,11 +289,12 @@ static void img_case(uint64_t idx, void *vctx)
     int stride_words = (w + 31) / 32 + 1;             /* one padding word, filled with 1s: must be ignored */
     uint32_t *bits = malloc(sizeof(uint32_t) * stride_words * h);
     for (int i = 0; i < stride_words * h; i++) bits[i] = 0;
-    for (int y = 0; y < h; y++) bits[y * stride_words + stride_words - 1] = c->zero_padding ? 0 : 0xffffffffu;
+    for (int y = 0; y < h; y++) bits[y * stride_words + stride_words - 1] = c->zero_padding == 2 ? 0x5a5a5a5au ^ (uint32_t)y * 0x11111111u : c->zero_padding ? 0 : 0xffffffffu;
     /* bits beyond width inside the last used word are also set: they are not pixels */
     mbox cells[MAXR]; int n = 0;
     for (int y = 0; y < h; y++) {
         if (!c->zero_padding) for (int x = w; x < ((w + 31) / 32) * 32; x++) bits[y * stride_words + x / 32] |= 1u << (x & 31);
+        if (c->zero_padding == 2) for (int x = w; x < ((w + 31) / 32) * 32; x++) if ((x + y + (x - w) / 3) & 1) bits[y * stride_words + x / 32] |= 1u << (x & 31);      /* neither: a pattern that differs from row to row */
         for (int k = 0; k < c->nfree; k++) {
             int x = c->freecol[k];
             int bit = (int)(idx >> (y * c->nfree + k) & 1);
@@ -313,7 +314,7 @@ static void img_case(uint64_t idx, void *vctx)
     pixman_image_t *img = pixman_image_create_bits(PIXMAN_a1, w, h, bits, stride_words * 4);
     char what[200];
     for (int wbits = 16; wbits <= 32; wbits += 16) {
-        snprintf(what, sizeof what, "init_from_image w=%d %dx%d bitmap#%llu (bits beyond the width: %s)", wbits, w, h, (unsigned long long)idx, c->zero_padding ? "zeros" : "ones");
+        snprintf(what, sizeof what, "init_from_image w=%d %dx%d bitmap#%llu (bits beyond the width: %s)", wbits, w, h, (unsigned long long)idx, c->zero_padding == 2 ? "a pattern that differs from row to row" : c->zero_padding ? "zeros" : "ones");
         if (wbits == 16) {
             pixman_region16_t r; pixman_region_init_from_image(&r, img); vf_count_transitions(1);
 #if PROP == 7
@@ -428,22 +429,22 @@ int main(int argc, char **argv)
         struct { int w, h; } small[] = { {1,1},{2,2},{3,3},{4,4},{5,3},{3,5},{2,8},{8,2},{6,3},{1,16},{16,1},{18,1},{9,2} };
         for (unsigned k = 0; k < sizeof small / sizeof small[0]; k++) {
             if (!th && small[k].w * small[k].h > 16) continue;
-            for (int zp = 0; zp < 2; zp++) {
+            for (int zp = 0; zp < 3; zp++) {
                 img_ctx c; c.w = small[k].w; c.h = small[k].h; c.nfree = c.w; for (int i = 0; i < c.w; i++) c.freecol[i] = i; c.zero_padding = zp;
-                char nm[64]; snprintf(nm, sizeof nm, "a1-bitmaps-%dx%d%s", c.w, c.h, zp ? "-zero-padding" : "");
+                char nm[64]; snprintf(nm, sizeof nm, "a1-bitmaps-%dx%d%s", c.w, c.h, zp == 2 ? "-mixed-padding" : zp ? "-zero-padding" : "");
                 vf_space_run(nm, (uint64_t)1 << (c.w * c.h), img_case, &c);
             }
         }
         int wide[] = { 31, 32, 33, 63, 64, 65, 96, 97 };
         for (unsigned k = 0; k < sizeof wide / sizeof wide[0]; k++) {
-            for (int zp = 0; zp < 2; zp++) {
+            for (int zp = 0; zp < 3; zp++) {
             img_ctx c; c.w = wide[k]; c.h = 2; c.nfree = 0; c.zero_padding = zp;
             int cand[] = { 0, 1, 30, 31, 32, 33, 62, 63, 64, 95, 96 };
             for (unsigned q = 0; q < sizeof cand / sizeof cand[0]; q++) if (cand[q] < c.w && c.nfree < (th ? 10 : 8)) c.freecol[c.nfree++] = cand[q];
             /* always make the last column free */
             int haslast = 0; for (int q = 0; q < c.nfree; q++) if (c.freecol[q] == c.w - 1) haslast = 1;
             if (!haslast) c.freecol[c.nfree - 1] = c.w - 1;
-            char nm[64]; snprintf(nm, sizeof nm, "a1-bitmaps-%dx%d-free%d%s", c.w, c.h, c.nfree, zp ? "-zero-padding" : "");
+            char nm[64]; snprintf(nm, sizeof nm, "a1-bitmaps-%dx%d-free%d%s", c.w, c.h, c.nfree, zp == 2 ? "-mixed-padding" : zp ? "-zero-padding" : "");
             vf_space_run(nm, (uint64_t)1 << (c.nfree * c.h), img_case, &c);
             }
         }
